@@ -54,10 +54,10 @@ def c13_1(c: Ctx) -> None:
         c.fail(pe, 'normal path through process_event avoids the bound step', 'history is not trimmed after an event was processed', witness=c.path(g.entry, p))
 
 
-def sort_info(u: Unit, lst: str) -> list[tuple[ast.Call, bool, str]]:
+def sort_info(fn: ast.AST, lst: str) -> list[tuple[ast.Call, bool, str]]:
     """`.sort(key=..)` calls on list *lst*: (call, descending?, key text)."""
     out = []
-    for n in own_nodes(u.node):
+    for n in own_nodes(fn):
         if isinstance(n, ast.Call) and call_name(n) == 'sort' and isinstance(n.func, ast.Attribute) and U(n.func.value) == lst:
             rev = q.kw(n, 'reverse')
             desc = rev is not None and not (isinstance(rev, ast.Constant) and rev.value is False)
@@ -71,8 +71,9 @@ def sort_info(u: Unit, lst: str) -> list[tuple[ast.Call, bool, str]]:
 def c13_2(c: Ctx) -> None:
     u = c.unit(SVC, 'EventBus.cleanup_event_history')
     self_ = u.params()[0]
+    fn = q.unrolled_view(u.node)  # `for lst in (completed, started, pending): <block>` is the three blocks in that order
     # classification
-    cls_loop = [n for n in own_nodes(u.node) if isinstance(n, ast.For) and U(n.iter) == f'{self_}.event_history.items()']
+    cls_loop = [n for n in own_nodes(fn) if isinstance(n, ast.For) and U(n.iter) == f'{self_}.event_history.items()']
     if len(cls_loop) != 1:
         c.fail(u, 'no single classification loop over event_history.items()', 'events are not classified by status before eviction')
         return
@@ -105,7 +106,7 @@ def c13_2(c: Ctx) -> None:
     L_done = lists.get('<else: completed/error>') or lists['completed']
     L_started, L_pending = lists['started'], lists['pending']
     # count
-    cnt_defs = [n for n in own_nodes(u.node) if isinstance(n, ast.Assign) and isinstance(n.targets[0], ast.Name) and isinstance(n.value, ast.BinOp) and isinstance(n.value.op, ast.Sub) and 'max_history_size' in U(n.value)]
+    cnt_defs = [n for n in own_nodes(fn) if isinstance(n, ast.Assign) and isinstance(n.targets[0], ast.Name) and isinstance(n.value, ast.BinOp) and isinstance(n.value.op, ast.Sub) and 'max_history_size' in U(n.value)]
     if len(cnt_defs) != 1:
         c.fail(u, f'{len(cnt_defs)} definitions of the removal count', 'the number of events to evict is not computed as len(history) − max_history_size')
         return
@@ -113,15 +114,15 @@ def c13_2(c: Ctx) -> None:
     lhs = cnt_defs[0].value.left
     lhs_txt = U(lhs)
     if isinstance(lhs, ast.Name):
-        d0 = [n for n in own_nodes(u.node) if isinstance(n, ast.Assign) and U(n.targets[0]) == lhs.id]
+        d0 = [n for n in own_nodes(fn) if isinstance(n, ast.Assign) and U(n.targets[0]) == lhs.id]
         lhs_txt = U(d0[0].value) if d0 else lhs_txt
     if lhs_txt == f'len({self_}.event_history)' and U(cnt_defs[0].value.right) == f'{self_}.max_history_size':
         c.ok(where(u, cnt_defs[0]), f'{cnt} = len(history) − max_history_size')
     else:
         c.fail(u, f'{cnt} = {lhs_txt} - {U(cnt_defs[0].value.right)}', 'the number evicted is not exactly the excess over max_history_size (history stays above N, or in-flight events are evicted needlessly)', node=cnt_defs[0])
     # removal blocks in textual order
-    rem_defs = [n for n in own_nodes(u.node) if isinstance(n, (ast.Assign, ast.AnnAssign)) and isinstance(n.value, ast.List) and not n.value.elts]
-    exts = sorted([n for n in own_nodes(u.node) if isinstance(n, ast.Call) and call_name(n) == 'extend' and isinstance(n.func, ast.Attribute)], key=lambda n: n.lineno)
+    rem_defs = [n for n in own_nodes(fn) if isinstance(n, (ast.Assign, ast.AnnAssign)) and isinstance(n.value, ast.List) and not n.value.elts]
+    exts = sorted([n for n in own_nodes(fn) if isinstance(n, ast.Call) and call_name(n) == 'extend' and isinstance(n.func, ast.Attribute)], key=lambda n: n.lineno)
     order = []
     for e in exts:
         src = None
@@ -141,13 +142,13 @@ def c13_2(c: Ctx) -> None:
         ub = U(sl.upper)
         ok_bound = ub == cnt
         if not ok_bound and isinstance(sl.upper, ast.Name):
-            bd = [n for n in own_nodes(u.node) if isinstance(n, ast.Assign) and U(n.targets[0]) == ub]
+            bd = sorted([n for n in own_nodes(fn) if isinstance(n, ast.Assign) and U(n.targets[0]) == ub and n.lineno < e.lineno], key=lambda n: n.lineno)[-1:]  # the definition that reaches this slice
             ok_bound = bool(bd) and all(isinstance(b.value, ast.Call) and U(b.value.func) == 'min' and {U(a) for a in b.value.args} == {f'len({src})', cnt} for b in bd)
         if ok_bound:
             c.ok(where(u, e), f'takes min(len({src}), remaining count) events from {src}')
         else:
             c.fail(u, f'slice bound of {src} is {ub}', f'the number taken from {src} is not bounded by the remaining count', node=e)
-        sorts = sort_info(u, src)
+        sorts = sort_info(fn, src)
         srt_ok = sorts and all((not desc) and 'event_created_at' in k for _, desc, k in sorts) and all(s.lineno < e.lineno for s, _, _ in sorts)
         if srt_ok:
             c.ok(where(u, sorts[0][0]), f'{src} sorted ascending by event_created_at before slicing')
@@ -158,7 +159,7 @@ def c13_2(c: Ctx) -> None:
     else:
         c.fail(u, f'eviction order is {order}', 'in-flight (started/pending) events can be evicted while a completed one remains')
     # the count is decremented between blocks
-    decs = [n for n in own_nodes(u.node) if isinstance(n, ast.AugAssign) and isinstance(n.op, ast.Sub) and U(n.target) == cnt]
+    decs = [n for n in own_nodes(fn) if isinstance(n, ast.AugAssign) and isinstance(n.op, ast.Sub) and U(n.target) == cnt]
     if len(decs) >= 2:
         c.ok(where(u, decs[0]), f'{cnt} decremented after the completed and started blocks')
     else:
